@@ -78,7 +78,7 @@ class BuiltinMixin:
             e = st.seq_elems(gen_v)
             n = st.seq_len(gen_v)
             if universal:
-                return V(("bool",), z3.ForAll([i], z3.Implies(z3.And(i >= 0, i < n), e[i]), patterns=[e[i]]))
+                return V(("bool",), qforall([i], z3.Implies(z3.And(i >= 0, i < n), e[i]), patterns=[e[i]]))
             return V(("bool",), z3.Exists([i], z3.And(i >= 0, i < n, e[i])))
         if is_static(gen_v, "emptylist"):
             return pybool(universal)
@@ -150,12 +150,12 @@ class BuiltinMixin:
             else:
                 side.append(fz(f))
         if side:
-            st.assume(z3.ForAll([i], z3.Implies(base_rng, z3.And(*side))))
+            st.assume(qforall([i], z3.Implies(base_rng, z3.And(*side))))
         b, rng = fz(b), fz(rng)
         pats = self._patterns(i, b, rng)
         if universal:
             body = z3.Implies(rng, b)
-            return V(("bool",), z3.ForAll([i], body, patterns=pats) if pats else z3.ForAll([i], body))
+            return V(("bool",), qforall([i], body, patterns=pats) if pats else qforall([i], body))
         return V(("bool",), z3.Exists([i], z3.And(rng, b)))
 
     def _patterns(self, i, *exprs):
@@ -268,7 +268,7 @@ class BuiltinMixin:
             arr = self.ctx.fresh_z("rng", z3.ArraySort(z3.IntSort(), z3.IntSort()))
             k = z3.Int(self.ctx.fresh_name("k"))
             n = z3.If(hi > lo, hi - lo, 0)
-            st.assume(z3.ForAll([k], z3.Implies(z3.And(k >= 0, k < n), arr[k] == lo + k), patterns=[arr[k]]))
+            st.assume(qforall([k], z3.Implies(z3.And(k >= 0, k < n), arr[k] == lo + k), patterns=[arr[k]]))
             return st.new_seq(("int",), "list", n, arr, "rng")
         if v.t[0] == "tuple":
             return self.make_list(st, v.items[0].t, list(v.items))
@@ -354,9 +354,10 @@ class BuiltinMixin:
             i = z3.Int(nm + "_i")
             body = body_fn(i)
             pats = [K[i]]
-            if z3.is_app(body) and body.decl().kind() in (z3.Z3_OP_SELECT, z3.Z3_OP_UNINTERPRETED) and _has_var_free(body, i):
+            if z3.is_app(body) and body.decl().kind() in (z3.Z3_OP_SELECT, z3.Z3_OP_UNINTERPRETED) and _has_var_free(body, i) \
+                    and _pattern_ok(body):
                 pats.append(body)       # also fire from the defining term, so K[j] exists whenever cost[E[j]] does
-            hit = (nm, K, z3.ForAll([i], K[i] == body, patterns=pats))
+            hit = (nm, K, qforall([i], K[i] == body, patterns=pats))
             self._axiom_cache[ck] = hit
         nm, K, ax = hit
         if nm not in st.axs:
@@ -399,7 +400,7 @@ class BuiltinMixin:
         inst = self.sigma_instance(st, keys, n)
         new_elems = self.ctx.fresh_z("sorted", old_elems.sort())
         k = z3.Int(self.ctx.fresh_name("k"))
-        st.assume(z3.ForAll([k], z3.Implies(z3.And(k >= 0, k < n),
+        st.assume(qforall([k], z3.Implies(z3.And(k >= 0, k < n),
                                             new_elems[k] == old_elems[z3.If(revz, inst["desc"][0](k), inst["asc"][0](k))]),
                             patterns=[new_elems[k]]))
         st.seq_set_content(recv, n, new_elems)
@@ -425,12 +426,12 @@ class BuiltinMixin:
                 k, k2, j = z3.Ints(f"{nm}_k {nm}_k2 {nm}_j")
                 order = (key(sig(k)) <= key(sig(k2))) if d == "asc" else (key(sig(k)) >= key(sig(k2)))
                 hit["axioms"] += [
-                    z3.ForAll([k], z3.Implies(inr(k), z3.And(inr(sig(k)), inv(sig(k)) == k)), patterns=[sig(k)]),
-                    z3.ForAll([j], z3.Implies(inr(j), z3.And(inr(inv(j)), sig(inv(j)) == j)),
+                    qforall([k], z3.Implies(inr(k), z3.And(inr(sig(k)), inv(sig(k)) == k)), patterns=[sig(k)]),
+                    qforall([j], z3.Implies(inr(j), z3.And(inr(inv(j)), sig(inv(j)) == j)),
                               patterns=[inv(j), key(j)]),
-                    z3.ForAll([k, k2], z3.Implies(z3.And(inr(k), inr(k2), k < k2), order),
+                    qforall([k, k2], z3.Implies(z3.And(inr(k), inr(k2), k < k2), order),
                               patterns=[z3.MultiPattern(sig(k), sig(k2))]),
-                    z3.ForAll([k, k2], z3.Implies(z3.And(inr(k), inr(k2), k < k2, key(sig(k)) == key(sig(k2))),
+                    qforall([k, k2], z3.Implies(z3.And(inr(k), inr(k2), k < k2, key(sig(k)) == key(sig(k2))),
                                                   sig(k) < sig(k2)),
                               patterns=[z3.MultiPattern(sig(k), sig(k2))]),
                 ]
@@ -482,6 +483,22 @@ class BuiltinMixin:
 
 def _sortname(s):
     return str(s).replace("(", "_").replace(")", "").replace(" ", "").replace(",", "_")
+
+
+def qforall(vs, body, patterns=None):
+    """z3.ForAll with the given triggers, minus those z3 would reject (a trigger may not contain if-then-else or
+    logical connectives); without any valid trigger z3 chooses its own"""
+    good = []
+    for p_ in patterns or []:
+        try:
+            terms = [p_.arg(i) for i in range(p_.num_args())] if z3.is_pattern(p_) else [p_]
+        except Exception:
+            terms = [p_]
+        if all(_pattern_ok(t) for t in terms):
+            good.append(p_)
+    if good:
+        return z3.ForAll(vs, body, patterns=good)
+    return z3.ForAll(vs, body)
 
 
 def _pattern_ok(e):
